@@ -57,11 +57,14 @@ ROOTS = {
                    ['read1', '16', 'c', '1001', '0', '2M1I3M', '=', '0121', '-15', 'ACGTAC', 'IIII#~'],
                    ['q', '99', '*', '0', '255', '*', 'chr1', '7', '302', '*', '*']],
 }
+ROOTS['bed12'] = [['c', '007', '10', 'n0', '+5', '+', '007', '010', '0,255,0', '2', '01,2', '0,02'],
+                  ['chr10', '12', '0034', 'a_long_name', '100', '-', '12', '34', '0', '1', '022', '00'],
+                  ['chrX', '5', '6', 'x', '-0', '.', '5', '6', '1,2,3', '3', '1,1,1', '0,1,2']]
 SEQ_ROOTS = {
     'fastq': [('s0', 'A', '!', '+s0'), ('seq_1 d', 'ACGTT', 'II#~5', '+'), ('x', 'GG', '+@', '+x')],
     'fasta2': [('s0', 'A'), ('seq_1 d', 'acgtnACGTN'), ('x', 'GG')],
 }
-EOLS = {'bed6': ['LF', 'CRLF'], 'fastq': ['LF', 'CRLF'], 'sam': ['LF', 'CRLF'], 'sam_notags': ['LF', 'CRLF'], 'vcf_samples': ['LF', 'CRLF'], 'fasta2': ['LF', 'CRLF']}
+EOLS = {'bed12': ['LF'], 'bed6': ['LF', 'CRLF'], 'fastq': ['LF', 'CRLF'], 'sam': ['LF', 'CRLF'], 'sam_notags': ['LF', 'CRLF'], 'vcf_samples': ['LF', 'CRLF'], 'fasta2': ['LF', 'CRLF']}
 
 
 def root_formats():
@@ -226,6 +229,10 @@ def op_alphabet(fields, kinds):
         if tp.replacement_values(k, 1) is not None and k not in seen:
             seen.add(k)
             ops.append(('replace', fn))
+    # field access as an explored operation (it parses the field and may touch the offset tables the write relies on):
+    # the list-valued / INFO-like columns, else the last column
+    gets = [fn for fn, k in zip(fields, kinds) if k in ('intlist', 'info')] or [fields[-1]]
+    ops += [('get', fn) for fn in gets[:2]]
     return ops
 
 
